@@ -101,6 +101,7 @@ fn hist_cfg_for(seed: u64, m: &HashMap<String, String>) -> hist::HistCfg {
         descriptors: m.contains_key("descriptors"),
         walks: m.contains_key("walks"),
         early_reopen: m.contains_key("early-reopen"),
+        giant_values: m.contains_key("giant-values"),
         jitter: arg(m, "jitter", 0),
         jitter_point: m.get("jitter-point").cloned().unwrap_or_default(),
         jitter_us: arg(m, "jitter-us", 0),
